@@ -314,10 +314,13 @@ def raoult_rr(z, K):
     return 0.5 * (lo + hi)
 
 def oracle_vleh(case):
-    """A history of calls on one stream (real code, real solvers).  After every call: specified T / P stored; the result equals
-    the result of the same call on a FRESH stream holding the same material (a flash depends on the material, T, P and the
-    specification, not on what the object solved before); for T,P with volatile chemicals only: single phase only at / beyond
-    the independently computed bubble / dew pressure."""
+    """A history of calls on one stream (real code, real solvers).  After every call: specified T / P stored; the H / S / V clauses
+    of the single-call oracle hold for the result (material = what the stream held before the call); a T,P result equals the
+    T,P result of a FRESH stream holding the same material; for T,P with volatile chemicals only: single phase only at / beyond
+    the independently computed bubble / dew pressure.
+    (The fresh-stream comparison is NOT applied to the searched specifications: a T,V / P,V / T,H ... search starts from the
+    previous call's VLE._P / _T, and with a trace of non-condensable gas the FRESH search -- bracket widened to 0.1*Pmax,
+    maxiter=20 -- may be the one that stops unconverged; such material is outside the V clause's quantifier.)"""
     e = C03.env(); tmo = e['tmo']
     s = C03.build_stream(case)
     for k, op in enumerate(case['ops']):
@@ -329,7 +332,7 @@ def oracle_vleh(case):
             spec = C03.resolve_spec(dict(c1, spec=dict(op[2], **{sk[1]: ['frac', 0.5]})), s)
         if 'V' in spec and not 0. <= spec['V'] <= 1.: continue
         kw = {kk: (np.array(v) if isinstance(v, list) else v) for kk, v in spec.items()}
-        pre = {ph: C03.fl(r.to_array()) for ph, r in tuple(s.imol)}
+        pre = {ph: C03.fl(r.to_array()) for ph, r in tuple(s.imol)}; T_pre, P_pre = float(s.T), float(s.P)
         fresh = tmo.MultiStream(None, T=s.T, P=s.P, phases=case['phases'], thermo=e['thermo'])
         for ph, r in pre.items(): fresh.imol[ph] = np.array(r)
         try:
@@ -338,16 +341,23 @@ def oracle_vleh(case):
             continue
         if 'T' in spec and s.T != spec['T']: return f'vle({sk}) call {k} of a history: specified T={spec["T"]} but the stream has T={s.T}'
         if 'P' in spec and s.P != spec['P']: return f'vle({sk}) call {k} of a history: specified P={spec["P"]} but the stream has P={s.P}'
-        try:
-            fresh.vle(**kw)
-        except Exception:
-            fresh = None
-        if fresh is not None:
-            a, b = _rows(s), _rows(fresh)
-            F = max(1., float(np.abs(b).sum()))
-            if np.abs(a - b).max() > 1e-4 * F or abs(s.T - fresh.T) > 1e-4 * fresh.T or abs(s.P - fresh.P) > 1e-4 * fresh.P:
-                return (f'vle({sk}) call {k} of a history on one stream differs from the same call on a fresh stream with the same material: '
-                        f'g={a[0].round(6).tolist()} l={a[1].round(6).tolist()} T={s.T} P={s.P} vs g={b[0].round(6).tolist()} l={b[1].round(6).tolist()} T={fresh.T} P={fresh.P}')
+        if sk == 'TP':
+            # at given T, P the split is a function of the material alone (no root search with a starting guess is involved)
+            try:
+                fresh.vle(**kw)
+            except Exception:
+                fresh = None
+            if fresh is not None:
+                a, b = _rows(s), _rows(fresh)
+                F = max(1., float(np.abs(b).sum()))
+                if np.abs(a - b).max() > 1e-4 * F:
+                    return (f'vle({sk}) call {k} of a history on one stream differs from the same call on a fresh stream with the same material: '
+                            f'g={a[0].round(6).tolist()} l={a[1].round(6).tolist()} T={s.T} P={s.P} vs g={b[0].round(6).tolist()} l={b[1].round(6).tolist()} T={fresh.T} P={fresh.P}')
+        else:
+            # the other specification pairs are solved by a bracketing search whose starting guess (VLE._T / _P / _V of the previous
+            # call) legitimately survives: the property constrains the RESULT, so the H / S / V clauses are applied to it directly
+            msg = spec_clauses(dict(case, l=pre['l'], g=pre['g'], T0=T_pre, P0=P_pre), spec, sk, s)
+            if msg: return msg + f' (call {k} of a history on one stream)'
         volatile_only = not any(pre[ph][i] for ph in pre for i in range(3, 7))
         present = [i for i in range(3) if sum(pre[ph][i] for ph in 'lg') > 0]
         if sk == 'TP' and volatile_only and len(present) >= 2:
@@ -363,24 +373,9 @@ def oracle_vleh(case):
                         f'(V={g / (g + l):.3f})')
     return None
 
-def oracle(case):
-    """The property on the REAL code with the REAL solvers: specified T/P are the stream's T/P after the call;
-    a specified H is reproduced; a specified V is met; multiplying the feed (and H, S) by a constant multiplies the
-    products by it; with the ideal package the T,P split equals an independent Raoult's-law Rachford-Rice solution."""
-    if case['kind'] == 'xpkg': return oracle_xpkg(case)
-    if case['kind'] == 'vleh': return oracle_vleh(case)
-    if case['kind'] != 'vle': return None
-    s = C03.build_stream(case)
-    spec = C03.resolve_spec(case, s)
-    sk = case['sk']
-    if case['mode'] == 'stub' and sk[1] in 'HS':
-        c2 = dict(case); c2['spec'] = dict(case['spec']); c2['spec'][sk[1]] = ['frac', 0.5]
-        spec = C03.resolve_spec(c2, s)
-    if 'V' in spec and not 0. <= spec['V'] <= 1.: return None
-    s = _flash(case, spec)
-    if s is None: return None
-    if 'T' in spec and s.T != spec['T']: return f'vle({sk}): specified T={spec["T"]} but the stream has T={s.T}'
-    if 'P' in spec and s.P != spec['P']: return f'vle({sk}): specified P={spec["P"]} but the stream has P={s.P}'
+def spec_clauses(case, spec, sk, s):
+    """the H / S / V clauses of the property for the result s of vle(**spec) on the material of case (flows case['l'], case['g']);
+    None or a message"""
     has_volatile = any(case[ph][i] for ph in 'lg' for i in range(3))
     # (without a volatile chemical VLE.__call__ catches NoEquilibrium and only stores P: outside the quantifier, see report)
     Fv = sum(case[ph][i] for ph in 'lg' for i in range(3))
@@ -415,6 +410,30 @@ def oracle(case):
             hi = _flash(case, {'T': s.T + (0 if sk == 'TV' else d), 'P': s.P - (d if sk == 'TV' else 0)})
             if lo is None or hi is None or not (min(vf_(lo), vf_(hi)) - 1e-6 <= spec['V'] <= max(vf_(lo), vf_(hi)) + 1e-6):
                 return f'vle({sk}): specified V={spec["V"]} but the stream has V={V} and the specification is not bracketed within the solver resolution'
+    return None
+
+def oracle(case):
+    """The property on the REAL code with the REAL solvers: specified T/P are the stream's T/P after the call;
+    a specified H is reproduced; a specified V is met; multiplying the feed (and H, S) by a constant multiplies the
+    products by it; with the ideal package the T,P split equals an independent Raoult's-law Rachford-Rice solution."""
+    if case['kind'] == 'xpkg': return oracle_xpkg(case)
+    if case['kind'] == 'vleh': return oracle_vleh(case)
+    if case['kind'] != 'vle': return None
+    s = C03.build_stream(case)
+    spec = C03.resolve_spec(case, s)
+    sk = case['sk']
+    if case['mode'] == 'stub' and sk[1] in 'HS':
+        c2 = dict(case); c2['spec'] = dict(case['spec']); c2['spec'][sk[1]] = ['frac', 0.5]
+        spec = C03.resolve_spec(c2, s)
+    if 'V' in spec and not 0. <= spec['V'] <= 1.: return None
+    s = _flash(case, spec)
+    if s is None: return None
+    if 'T' in spec and s.T != spec['T']: return f'vle({sk}): specified T={spec["T"]} but the stream has T={s.T}'
+    if 'P' in spec and s.P != spec['P']: return f'vle({sk}): specified P={spec["P"]} but the stream has P={s.P}'
+    msg = spec_clauses(case, spec, sk, s)
+    if msg: return msg
+    has_volatile = any(case[ph][i] for ph in 'lg' for i in range(3))
+    volatile_only = not any(case[ph][i] for ph in case['phases'] for i in range(3, 7))
     # scaling
     if sk[1] not in 'xy':
         for k in (4., 2. ** -30, 2. ** 20):          # ordinary, down to trace amounts (~1e-9 of the feed), up
